@@ -191,6 +191,10 @@ def construct(t, sch, T, v, depth=0):
             o[name] = sub
     else:
         o = sch.clone(build.py_scalar(T, v))
+        if k == 'REAL' and isinstance(v, tuple) and v[1] == 2 and t.pct(35):
+            # the documented per-object BER encoding preference of Real; the canonical codecs have no such freedom
+            o.binEncBase = (2, 8, 16)[t.int(0, 2)]
+            t.log.append('binEncBase')
     if t.pct(15):
         t.log.append('cloned')
         o = o.clone(cloneValueFlag=True) if k in ir.CONSTRUCTED_KINDS or k == 'CHOICE' else o.clone()
